@@ -176,6 +176,7 @@ Lemma inv_prov_step g w w3 e en3 t kt ob' ev :
      exists xn', nth_error (ents (w_st w3)) x = Some xn' /\ same_but_prio xn xn') ->
   (forall x, x <> e -> set_mem x (cset (w_st w3)) = set_mem x (cset (w_st w))) ->
   (flagged en3 = true -> set_mem e (cset (w_st w3)) = true) ->
+  (set_mem e (cset (w_st w3)) = true -> flagged en3 = true) ->
   now (w_st w) <= now (w_st w3) -> lastch (w_st w3) <= now (w_st w3) ->
   maxchg en3 <= now (w_st w3) + 1 -> (forall sd, x_lg (getx w3 e sd) <= now (w_st w3) + 1) ->
   tape (w_st w3) = [] -> IdxJ (w_st w3) ->
@@ -186,7 +187,7 @@ Lemma inv_prov_step g w w3 e en3 t kt ob' ev :
   Inv g w3.
 Proof.
   intros I He Hcfg Hpo HW Hcur Hlog Hevo Hkt2 Hob' Hevk Hevx Hkf Hpath Hobj Hdead Hlen Huniq Hgd
-         Hen3 Hlen3 Hoth Hcs Hcse Hnow Hlast Hmax Hlg Htape Hidx Hx Hoids Hokt HE.
+         Hen3 Hlen3 Hoth Hcs Hcse Hcsx Hnow Hlast Hmax Hlg Htape Hidx Hx Hoids Hokt HE.
   assert (Hev: ProvModel.events_from (prov_of w3 t) = ProvModel.events_from (prov_of w t) ++ [ev]).
   { apply events_from_app; [exact Hcur|exact Hlog|apply (pw_cursor _ (i_pwf _ _ _ I t))]. }
   assert (Hobjo: forall k, obj_at w3 (negb t) k = obj_at w (negb t) k) by (intros; unfold obj_at; rewrite Hpo; reflexivity).
@@ -223,6 +224,7 @@ Proof.
   - exact Hoth.
   - exact Hcs.
   - exact Hcse.
+  - exact Hcsx.
   - exact Hnow.
   - exact Hlast.
   - exact Hmax.
@@ -636,6 +638,7 @@ Proof.
         assert (Hcc2: (tchg (s_chg (gs end_ t)) || tchg (s_chg (gs end_ (negb t))))%bool = true).
         { assert (Hs': negb t = s) by (unfold t; destruct s; reflexivity). rewrite Hs', Hgs. cbn [w_spath w_shash s_chg]. rewrite Hc. apply orb_true_r. }
         rewrite Hcc2, Nat.eqb_refl. reflexivity.
+      + intros _. apply (flagged_side en3 s); rewrite Hf_s; cbn [w_spath w_shash w_hash w_ex s_chg s_oid]; [exact Hc|rewrite Ho; reflexivity].
       + exact SC.
       + rewrite SD. pose proof (i_clk _ _ _ I). lia.
       + destruct (i_clke _ _ _ I e en Hn) as (Hmx & _). unfold maxchg, chgv in *.
@@ -882,6 +885,7 @@ Proof.
         assert (Hcc2: (tchg (s_chg (gs end_ t)) || tchg (s_chg (gs end_ (negb t))))%bool = true).
         { assert (Hs': negb t = s) by (unfold t; destruct s; reflexivity). rewrite Hs', Hgs_d. cbn [w_spath w_shash s_chg]. rewrite Hc. apply orb_true_r. }
         rewrite Hcc2, Nat.eqb_refl. reflexivity.
+      + intros _. apply (flagged_side en3 s); rewrite Hf_s; cbn [w_spath w_shash w_hash w_ex s_chg s_oid]; [exact Hc|rewrite Ho; reflexivity].
       + exact SC.
       + rewrite SD. pose proof (i_clk _ _ _ I). lia.
       + destruct (i_clke _ _ _ I e en Hn) as (Hmx & _). unfold maxchg, chgv in *.
@@ -1064,6 +1068,7 @@ Proof.
         + intros x xn Hne Hxn. exists xn. split; [rewrite SA, nth_list_upd_neq by congruence; exact Hxn|apply same_but_prio_refl].
         + intros x Hne. rewrite SB. destruct (Nat.eqb_spec x e); [contradiction|reflexivity].
         + intros Hfl. exfalso. unfold flagged, en3 in Hfl. simpl in Hfl. discriminate.
+        + intros Hm. rewrite SB, Nat.eqb_refl in Hm. discriminate.
         + exact SC.
         + rewrite SD. pose proof (i_clk _ _ _ I). lia.
         + unfold maxchg, chgv, en3. simpl. apply N.le_0_l.
@@ -1139,6 +1144,7 @@ Proof.
         + intros x xn Hne Hxn. exists xn. split; [rewrite SA, nth_list_upd_neq by congruence; exact Hxn|apply same_but_prio_refl].
         + intros x Hne. rewrite SB. destruct (Nat.eqb_spec x e); [contradiction|reflexivity].
         + intros Hfl. exfalso. unfold flagged, en3 in Hfl. simpl in Hfl. discriminate.
+        + intros Hm. rewrite SB, Nat.eqb_refl in Hm. discriminate.
         + exact SC.
         + rewrite SD. pose proof (i_clk _ _ _ I). lia.
         + unfold maxchg, chgv, en3. simpl. apply N.le_0_l.
@@ -1296,6 +1302,19 @@ Proof.
     destruct (flagged_prog _ _ _ _ _ Pb) as [(Hmb & Hfb)|Hmb]; rewrite Hmb; cbn [mcomp]; [|rewrite Nat.eqb_refl; reflexivity].
     destruct (flagged_prog _ _ _ _ _ Pa) as [(Hma & Hfa)|Hma]; rewrite Hma; [|rewrite Nat.eqb_refl; reflexivity].
     apply (i_csc _ _ _ I e en Hn). congruence.
+  - intros Hm. rewrite <- (sbp_flagged _ _ S3). rewrite SB in Hm.
+    pose proof Pb as (Pbo & _ & Pboid & _ & _ & _ & Pbc). pose proof Pa as (Pao & _ & Paoid & _ & _ & _ & Pac). cbn [negb] in Pbo, Pao.
+    destruct Pbc as [(Hcb & Hmb)|(tb & Hcb & Htb & _ & _ & Hmb)].
+    + destruct Pac as [(Hca & Hma)|(ta & Hca & Hta & _ & _ & Hma)].
+      * rewrite Hma, Hmb in Hm. cbn [mcomp] in Hm. pose proof (i_cse _ _ _ I e en Hn Hm) as F. unfold flagged in F.
+        change (e_l en) with (gs en false) in F. change (e_r en) with (gs en true) in F.
+        apply orb_prop in F as [F|F]; apply andb_prop in F as [F1 F2].
+        -- apply (flagged_side enb false); rewrite Pbo; [rewrite Hca; exact F1|rewrite Paoid; exact F2].
+        -- apply (flagged_side enb true); [rewrite Hcb, Pao; exact F1|rewrite Pboid, Pao; exact F2].
+      * assert (Hx: tchg (s_chg (gs enb false)) = true) by (rewrite Pbo, Hca; exact Hta).
+        apply (flagged_side enb false); [exact Hx|apply (ent_chg_oid (real_evl w) g w e enb EOb false Hx)].
+    + assert (Hx: tchg (s_chg (gs enb true)) = true) by (rewrite Hcb; exact Htb).
+      apply (flagged_side enb true); [exact Hx|apply (ent_chg_oid (real_evl w) g w e enb EOb true Hx)].
   - exact SC.
   - rewrite SD. pose proof (i_clk _ _ _ I). lia.
   - rewrite <- (sbp_maxchg _ _ S3). lia.
@@ -1370,6 +1389,7 @@ Proof.
       + intros x xn Hne Hxn. exists xn. split; [rewrite SA, nth_list_upd_neq by congruence; exact Hxn|apply same_but_prio_refl].
       + intros x Hne. rewrite SB. reflexivity.
       + intros Hfl. rewrite SB. apply (i_csc _ _ _ I e en Hn). rewrite <- Hfl. unfold flagged, en'. destruct en as [l r i q], s; reflexivity.
+      + intros Hm. rewrite SB in Hm. pose proof (i_cse _ _ _ I e en Hn Hm) as F. rewrite <- F. unfold flagged, en'. destruct en as [l r i q], s; reflexivity.
       + exact SC.
       + rewrite SD. pose proof (i_clk _ _ _ I). lia.
       + rewrite Hmax. destruct (i_clke _ _ _ I e en Hn) as (X & _). lia.
